@@ -453,31 +453,24 @@ example :
         = [.server, .wrk 0, .wrk 1, .server, .server] := by
   refine ⟨by decide, by decide⟩
 
-/-- **Line-level race (finding).** In the source-line model of `_process_await` ∥
-    `_handle_result` the schedule in which the incoming thread handles the result of `f0`
-    right after the main thread executed `box.dest_addr = task.return_address` puts the
-    task's address into the ready queue twice; the first wake-up consumes `f0` and parks the
-    task on `f1`; the stale second wake-up then hits `assert box.ready` on the non-ready
-    mailbox of `f1` (`failed`).  Replayed on the real `Worker` with `sys.settrace`. -/
-theorem C07_fine_double_wake_witness :
-    (FineWake.run {} FineWake.raceSchedule).main = .failed
-    ∧ (FineWake.run {} FineWake.raceSchedule).maxReady = 2
-    ∧ (FineWake.run {} FineWake.atomicSchedule).main = .blocked 1
-    ∧ (FineWake.run {} FineWake.atomicSchedule).maxReady = 1 := by
-  decide
-
-/-- **With one lock around `_process_await` and `_handle_result` the race is gone** (the
-    proposed patch): in the source-line model with a lock, for *every* schedule of the two
-    threads the assertion is never hit and the task is never in the ready queue twice.
-    (Finite reachable set, closed under both step functions, checked by `decide`.) -/
+/-- **Line level: the code as it is (with `self._mailbox_mutex`) never wakes a task twice.**
+    Source-line model of `_process_await` ∥ `_handle_result` with the lock both bodies run under
+    (`FineWake.run true`): for **every** schedule of the two threads no exception leaves task code
+    (`assert box.ready` of `_get_desired_result`, 'Cannot await on a canceled task.'), the incoming
+    thread does not crash, and the task's address is never in the ready queue twice.
+    (Finite reachable set, closed under both step functions, checked by `decide`; the statements
+    and the extent of the `with` blocks are tied to the source by the AST query and the
+    scheduler-controlled line-level runs of `harness/runtime_fine.py`.) -/
 theorem C07_fine_lock_safe (sched : List Bool) :
-    (FineWake.runL {} sched).s.main ≠ .failed ∧ (FineWake.runL {} sched).s.maxReady ≤ 1 := by
+    (FineWake.runL {} sched).main ≠ .failed ∧ (FineWake.runL {} sched).inc ≠ .crashed
+    ∧ (FineWake.runL {} sched).maxReady ≤ 1 := by
   have hclosed : ∀ l ∈ FineWake.reach,
-      FineWake.stepMainL l ∈ FineWake.reach ∧ FineWake.stepIncL l ∈ FineWake.reach := by
+      FineWake.stepMain true l ∈ FineWake.reach ∧ FineWake.stepInc true l ∈ FineWake.reach := by
     decide +kernel
-  have hsafe : ∀ l ∈ FineWake.reach, l.s.main ≠ .failed ∧ l.s.maxReady ≤ 1 := by decide +kernel
-  have hinit : ({} : FineWake.LState) ∈ FineWake.reach := by decide +kernel
-  have hrun : ∀ (sc : List Bool) (l : FineWake.LState), l ∈ FineWake.reach →
+  have hsafe : ∀ l ∈ FineWake.reach, l.main ≠ .failed ∧ l.inc ≠ .crashed ∧ l.maxReady ≤ 1 := by
+    decide +kernel
+  have hinit : ({} : FineWake.FState) ∈ FineWake.reach := by decide +kernel
+  have hrun : ∀ (sc : List Bool) (l : FineWake.FState), l ∈ FineWake.reach →
       FineWake.runL l sc ∈ FineWake.reach := by
     intro sc
     induction sc with
@@ -488,6 +481,59 @@ theorem C07_fine_lock_safe (sched : List Bool) :
       · exact ih _ (hclosed l hl).2
       · exact ih _ (hclosed l hl).1
   exact hsafe _ (hrun sched _ hinit)
+
+/-- **Line level: no lost wake-up, no deadlock on the lock.**  After *any* schedule prefix the two
+    threads can still finish: some continuation delivers both results, wakes the task exactly when
+    its awaited mailbox is complete, and the task returns (`finished`); and a state in which neither
+    thread can move is the final state. -/
+theorem C07_fine_lock_complete (sched : List Bool) :
+    (∃ ext, (FineWake.runL {} (sched ++ ext)).main = .finished
+        ∧ (FineWake.runL {} (sched ++ ext)).inc = .done)
+    ∧ (FineWake.stepMain true (FineWake.runL {} sched) = FineWake.runL {} sched →
+       FineWake.stepInc true (FineWake.runL {} sched) = FineWake.runL {} sched →
+       (FineWake.runL {} sched).main = .finished ∧ (FineWake.runL {} sched).inc = .done) := by
+  have hclosed : ∀ l ∈ FineWake.reach,
+      FineWake.stepMain true l ∈ FineWake.reach ∧ FineWake.stepInc true l ∈ FineWake.reach := by
+    decide +kernel
+  have hcompl : ∀ l ∈ FineWake.reach,
+      (FineWake.runL l FineWake.completion).main = .finished
+      ∧ (FineWake.runL l FineWake.completion).inc = .done := by decide +kernel
+  have hstuck : ∀ l ∈ FineWake.reach, FineWake.stepMain true l = l → FineWake.stepInc true l = l →
+      l.main = .finished ∧ l.inc = .done := by decide +kernel
+  have hinit : ({} : FineWake.FState) ∈ FineWake.reach := by decide +kernel
+  have hrun : ∀ (sc : List Bool) (l : FineWake.FState), l ∈ FineWake.reach →
+      FineWake.runL l sc ∈ FineWake.reach := by
+    intro sc
+    induction sc with
+    | nil => intro l hl; exact hl
+    | cons b t ih =>
+      intro l hl
+      cases b
+      · exact ih _ (hclosed l hl).2
+      · exact ih _ (hclosed l hl).1
+  have happ : ∀ (a b : List Bool) (l : FineWake.FState),
+      FineWake.runL l (a ++ b) = FineWake.runL (FineWake.runL l a) b := by
+    intro a
+    induction a with
+    | nil => intro b l; rfl
+    | cons x t ih => intro b l; exact ih b _
+  refine ⟨⟨FineWake.completion, ?_⟩, hstuck _ (hrun sched _ hinit)⟩
+  rw [happ]
+  exact hcompl _ (hrun sched _ hinit)
+
+/-- REGRESSION (pre-fix variant `run false`, NOT the code as it is): without the lock the schedule
+    in which the incoming thread handles the result of `f0` right after the main thread executed
+    `box.dest_addr = task.return_address` puts the task's address into the ready queue twice; the
+    stale second wake-up hits `assert box.ready` on the mailbox of `f1` (`failed`).  This was the
+    finding `fine-race:double-wake` (fixed by the maintainer's mailbox-mutex commit); the same
+    schedule is harmless under the lock (the incoming thread's steps do not move while the main
+    thread is inside `_process_await`). -/
+example :
+    (FineWake.run false {} FineWake.raceSchedule).main = .failed
+    ∧ (FineWake.run false {} FineWake.raceSchedule).maxReady = 2
+    ∧ (FineWake.runL {} FineWake.raceSchedule).main ≠ .failed
+    ∧ (FineWake.runL {} FineWake.raceSchedule).maxReady ≤ 1 := by
+  decide
 
 
 end BqVerif.Runtime
